@@ -181,6 +181,7 @@ func check(c *fw.Ctx, p prog, limits []int) {
 func runAll(c *fw.Ctx) {
 	g1(c)
 	g2(c)
+	g2special(c)
 	g3(c)
 	g4(c)
 }
